@@ -31,15 +31,18 @@ def _markers(ctx: Ctx, mod: Mod):
 def fmt1(ctx: Ctx) -> None:
     mod = ctx.P.mod("_types")
     ms = _markers(ctx, mod)
-    if len(ms) < 10:
-        raise AnalysisError(f"FMT-1: {len(ms)} marker definitions found (10 confirmed by hand)")
+    if len(ms) < 6:
+        raise AnalysisError(f"FMT-1: {len(ms)} marker definitions found (10 confirmed by hand on the reference tree; fewer than 6 means the marker tables were not recognised)")
     u2a: Dict[str, Tuple[str, str]] = {}
     per_method: Dict[str, List[Tuple[str, str]]] = {}
     for q, name, val, st in ms:
         if isinstance(val, ast.Constant):
             a = u = val.value
         else:
-            if norm(val.test) != "opts.ascii_only" or not isinstance(val.body, ast.Constant) or not isinstance(val.orelse, ast.Constant):
+            if not isinstance(val.body, ast.Constant) or not isinstance(val.orelse, ast.Constant):
+                ctx.R.undecided("FMT-1", f"{q}: `{name}` is chosen between two non-literal values (`{norm(val)[:60]}`): the marker table is not visible here")
+                continue
+            if norm(val.test) not in ("opts.ascii_only", "bool(opts.ascii_only)"):
                 ctx.R.fail("FMT-1", mod, st, "a prefix marker must be chosen as `<ascii> if opts.ascii_only else <unicode>` between two literals")
                 continue
             a, u = val.body.value, val.orelse.value
@@ -71,6 +74,8 @@ def fmt1(ctx: Ctx) -> None:
     cx = {n: v for q, n, v, s in ms if q == "Context._format"}
     if "child_context_indicator" in fr and "start_child" in cx and norm(fr["child_context_indicator"]) == norm(cx["start_child"]):
         ctx.R.ok("FMT-1", "Frame._format's child_context_indicator equals Context._format's start_child (writer/reader of the same marker agree)")
+    elif "child_context_indicator" not in fr or "start_child" not in cx:
+        ctx.R.undecided("FMT-1", "the definitions of Frame._format's child_context_indicator / Context._format's start_child were not found as marker tables")
     else:
         ctx.R.fail("FMT-1", mod, mod.fn("Frame._format"), "Frame._format recognises child-context lines by a marker that Context._format does not emit", construct="child_context_indicator vs start_child")
 
@@ -211,6 +216,15 @@ def _ends_nl(e: ast.AST, ok_vars: Set[str]) -> bool:
         return True  # every return of Stack._format_header is itself checked to end in a newline
     if isinstance(e, ast.IfExp):
         return _ends_nl(e.body, ok_vars) and _ends_nl(e.orelse, ok_vars)
+    # "...{}\n".format(...) / "...%s\n" % (...): the text after the last placeholder is literal
+    if isinstance(e, ast.Call) and isinstance(e.func, ast.Attribute) and e.func.attr == "format":
+        t = e.func.value
+        if isinstance(t, ast.IfExp):
+            return all(isinstance(x, ast.Constant) and isinstance(x.value, str) and x.value.endswith("\n") and not x.value.rstrip("\n").endswith("}") or
+                       (isinstance(x, ast.Constant) and isinstance(x.value, str) and x.value.endswith("\n")) for x in (t.body, t.orelse))
+        return isinstance(t, ast.Constant) and isinstance(t.value, str) and t.value.endswith("\n")
+    if isinstance(e, ast.BinOp) and isinstance(e.op, ast.Mod) and isinstance(e.left, ast.Constant) and isinstance(e.left.value, str):
+        return e.left.value.endswith("\n")
     return False
 
 
@@ -289,6 +303,32 @@ def fmt5(ctx: Ctx) -> None:
         ctx.R.fail("FMT-5", mod, fe, "multi-line traceback chunks must be split into single newline-terminated lines", construct="splitlines(True)")
 
 
+def _new_options_at_default(mod: Mod, e: ast.AST) -> ast.AST:
+    """`opts.<x>` for an option <x> that the documented interface does not have (a field added to FormatOptions with a default, or
+    whose format() keyword has one) is replaced by that default: the documented behaviour is the behaviour with new options left alone"""
+    import copy
+    DOC = {"ascii_only", "show_contexts", "show_hidden_frames"}
+    dflt: Dict[str, ast.AST] = {}
+    if mod.has("FormatOptions"):
+        for a in mod.fn("FormatOptions").body:
+            if isinstance(a, ast.AnnAssign) and isinstance(a.target, ast.Name) and a.target.id not in DOC and isinstance(a.value, ast.Constant):
+                dflt[a.target.id] = a.value
+    if mod.has("Formattable.format"):
+        f = mod.fn("Formattable.format")
+        for a, d in zip(f.args.kwonlyargs, f.args.kw_defaults):
+            if a.arg not in DOC and isinstance(d, ast.Constant):
+                dflt.setdefault(a.arg, d)
+    if not dflt:
+        return e
+
+    class Sub(ast.NodeTransformer):
+        def visit_Attribute(self, n: ast.Attribute):
+            if isinstance(n.value, ast.Name) and n.value.id == "opts" and n.attr in dflt and isinstance(dflt[n.attr].value, bool):
+                return ast.Constant(value=dflt[n.attr].value)
+            return self.generic_visit(n)
+    return Sub().visit(copy.deepcopy(e))
+
+
 def fmt7(ctx: Ctx) -> None:
     mod = ctx.P.mod("_types")
     f = mod.fn("Formattable.format")
@@ -297,11 +337,16 @@ def fmt7(ctx: Ctx) -> None:
     opts = [a.arg for a in f.args.kwonlyargs]
     defaults = {a.arg: norm(d) for a, d in zip(f.args.kwonlyargs, f.args.kw_defaults)}
     calls = [c for c in ast.walk(f) if isinstance(c, ast.Call) and norm(c.func) == "FormatOptions"]
-    if len(calls) == 1 and {k.arg: norm(k.value) for k in calls[0].keywords} == {o: o for o in opts} and set(opts) == {"ascii_only", "show_contexts", "show_hidden_frames"}:
-        ctx.R.ok("FMT-7", "format forwards each option to the same-named FormatOptions field")
+    DOC = {"ascii_only": "False", "show_contexts": "True", "show_hidden_frames": "False"}
+    fwd = {k.arg: norm(k.value) for k in calls[0].keywords} if len(calls) == 1 else {}
+    if len(calls) == 1 and set(DOC) <= set(opts) and all(fwd.get(o) == o for o in DOC) and all(fwd.get(o, o) == o for o in opts):
+        extra_o = sorted(set(opts) - set(DOC))
+        ctx.R.ok("FMT-7", "format forwards each option to the same-named FormatOptions field" + (f" (further options: {extra_o})" if extra_o else ""))
+    elif len(calls) != 1 and set(DOC) <= set(opts):
+        ctx.R.undecided("FMT-7", f"format builds FormatOptions {len(calls)} times")
     else:
         ctx.R.fail("FMT-7", mod, f, "format must forward ascii_only / show_contexts / show_hidden_frames to the same-named FormatOptions fields", construct="FormatOptions(...) forwarding")
-    if defaults == {"ascii_only": "False", "show_contexts": "True", "show_hidden_frames": "False"}:
+    if {k_: v_ for k_, v_ in defaults.items() if k_ in DOC} == DOC:
         ctx.R.ok("FMT-7", f"documented defaults {defaults}")
     else:
         ctx.R.fail("FMT-7", mod, f, f"format's documented defaults changed: {defaults}", construct="format defaults")
@@ -888,7 +933,8 @@ def fmt10_11(ctx: Ctx) -> None:
             from ..util import Atomizer
             if len(gs) == 1:
                 try:
-                    ok, cex = equivalent(gs[0][0] if gs[0][1] else ast.UnaryOp(op=ast.Not(), operand=gs[0][0]), lambda e_: not e_[atom], [atom])
+                    g0 = _new_options_at_default(mod, gs[0][0])
+                    ok, cex = equivalent(g0 if gs[0][1] else ast.UnaryOp(op=ast.Not(), operand=g0), lambda e_: not e_[atom], [atom])
                 except AnalysisError as ex:
                     ctx.R.undecided("FMT-11", f"{q}: guard of the {what} line not understood")
                     continue
